@@ -3,10 +3,12 @@
 package props
 
 import (
+	"encoding/hex"
 	"encoding/json"
 	"fmt"
 	"math"
 	"reflect"
+	"sync"
 	"testing"
 
 	"github.com/Breeze0806/gobinlog/replication"
@@ -124,6 +126,12 @@ func checkGTIDCase(c *GTIDCase) error {
 			}
 			if !p.Equal(s) || !s.Equal(p) {
 				return fmt.Errorf("parsing the printed set %q gives %q", s.String(), p.String())
+			}
+			// printing is a read: the set still lists what it listed, in the order it listed it
+			for i, g := range c.MSet {
+				if want := (replication.MariadbGTID{Domain: uint32(g[0]), Server: uint32(g[1]), Sequence: g[2]}); i >= len(s) || s[i] != want {
+					return fmt.Errorf("after it was printed the set reads %v; it was built from %v", []replication.MariadbGTID(s), c.MSet)
+				}
 			}
 			return nil
 		})
@@ -282,8 +290,9 @@ func checkMariaSeq(c *MariaSeqCase) error {
 				if !ok {
 					return fmt.Errorf("%s: retained set #%d is a %T", when, i, sets[i])
 				}
+				_ = ms.String() // printing is a read: the set is afterwards what it was
 				if !reflect.DeepEqual([]replication.MariadbGTID(ms), []replication.MariadbGTID(models[i])) && !(len(ms) == 0 && len(models[i]) == 0) {
-					return fmt.Errorf("%s: retained set #%d is now %q, the model says %q", when, i, ms.String(), replication.MariadbGTIDSet(models[i]).String())
+					return fmt.Errorf("%s: retained set #%d is now %v, the model says %v (in this order)", when, i, []replication.MariadbGTID(ms), []replication.MariadbGTID(models[i]))
 				}
 				seen := map[uint32]bool{}
 				for _, g := range ms {
@@ -343,6 +352,56 @@ func init() {
 	})
 }
 
+// parallelPrintPart: 2-4 goroutines print and parse their own MySQL 5.6 and MariaDB GTIDs at the same time;
+// each must get back exactly its own identifiers.
+func parallelPrintPart(rt *rapid.T, sid func(*rapid.T) [16]byte, seq func(*rapid.T, string, uint64) uint64, u32 func(*rapid.T, string) uint32) error {
+	n := rapid.IntRange(2, 4).Draw(rt, "printers")
+	type job struct {
+		sid [16]byte
+		seq int64
+		mg  replication.MariadbGTID
+	}
+	jobs := make([]job, n)
+	for i := range jobs {
+		jobs[i].sid = sid(rt)
+		jobs[i].seq = int64(seq(rt, "seq", math.MaxInt64))
+		jobs[i].mg = replication.MariadbGTID{Domain: u32(rt, "dom"), Server: u32(rt, "srv"), Sequence: seq(rt, "mseq", math.MaxUint64)}
+	}
+	errs := make([]error, n)
+	var wg sync.WaitGroup
+	for i := range jobs {
+		wg.Add(1)
+		go func(i int) {
+			defer wg.Done()
+			j := jobs[i]
+			h := hex.EncodeToString(j.sid[:])
+			want := fmt.Sprintf("%s-%s-%s-%s-%s:%d", h[0:8], h[8:12], h[12:16], h[16:20], h[20:32], j.seq)
+			g := replication.Mysql56GTID{Server: replication.SID(j.sid), Sequence: j.seq}
+			errs[i] = guard(func() error {
+				for k := 0; k < 300; k++ {
+					if got := g.String(); got != want {
+						return fmt.Errorf("printer %d of %d: GTID printed as %q, want %q", i, n, got, want)
+					}
+					if err := roundTripGTID(g, "MySQL56"); err != nil {
+						return fmt.Errorf("printer %d of %d: %v", i, n, err)
+					}
+					if err := roundTripGTID(j.mg, "MariaDB"); err != nil {
+						return fmt.Errorf("printer %d of %d: %v", i, n, err)
+					}
+				}
+				return nil
+			})
+		}(i)
+	}
+	wg.Wait()
+	for _, e := range errs {
+		if e != nil {
+			return e
+		}
+	}
+	return nil
+}
+
 func TestC19(t *testing.T) {
 	rec := recorder("C19")
 	defer rec.Flush(t)
@@ -371,6 +430,14 @@ func TestC19(t *testing.T) {
 		return
 	}
 	rapidCheck(t, func(rt *rapid.T) {
+		if rapid.IntRange(0, 39).Draw(rt, "part_parallel") == 0 {
+			rec.Case(true, "parallel-printers", "kind/parallel-printers")
+			if err := parallelPrintPart(rt, sid, seq, u32); err != nil {
+				rec.Violation("c19par", "parallel printers", "", err)
+				rt.Fatalf("C19 violation: %v", err)
+			}
+			return
+		}
 		kind := rapid.SampledFrom([]string{"gtid56", "maria", "set56", "mariaset", "event56", "prev56", "mariaevent", "mariaseq", "mariaseq"}).Draw(rt, "kind")
 		if kind == "mariaseq" {
 			c := &MariaSeqCase{}
